@@ -455,11 +455,11 @@ def run_check(cid, tier, seed):
             if s in sigs or len(sigs) >= 5:
                 continue
             sigs.add(s)
-            p = write_replay(cid, {"property": cid, "kind": "failing-input", **v})
+            p = write_replay(cid, {"property": cid, "kind": "failing-input", "seed": seed, "tier": tier, **v})
             out_lines.append(f"VIOLATION property={cid} replay={p}")
         exit_code = 1
     elif theorem_fail or ctx.mismatches:
-        p = write_replay(cid, {"property": cid, "kind": "broken-tie",
+        p = write_replay(cid, {"property": cid, "kind": "broken-tie", "seed": seed, "tier": tier,
                                "obligations_not_checking": theorem_fail,
                                "correspondence_mismatches": ctx.mismatches[:10],
                                "search": "search phase ran" if searched else "no search possible"})
